@@ -297,6 +297,9 @@ def run(facts, rep, tier, file_filter=None, pid="C02"):
         rep.floor(P + ".Z", "uses of get_zero_shares/get_node_shares in %s" % file_filter, n_src, 3)
     rep.analysed["send_sites"] = n_send
     rep.analysed["nop_producers"] = n_nop
+    if file_filter is not None:
+        party_arithmetic(facts, rep, P, file_filter)
+        component_locality(facts, rep, P, file_filter)
     rep.tables["nop_exceptions"] = {k: v[1] for k, v in NOP_EXCEPTIONS.items()}
     if file_filter is None:
         planner(facts, rep)
@@ -635,14 +638,14 @@ DIRECTION = {
 }
 
 
-def party_arithmetic(facts, rep):
+def party_arithmetic(facts, rep, P="C02", file_filter=None):
     from .. import intexpr as IE
-    rep.rule("C02.D", "party arithmetic of Send annotations whose sender and receiver are functions of one index variable: for the "
+    rep.rule(P + ".D", "party arithmetic of Send annotations whose sender and receiver are functions of one index variable: for the "
                       "three values of that variable both parties are in {0,1,2} and differ; in the functions for which the "
                       "property states a direction (key triple, resharing, input sharing: i -> i-1; reveal: p-1 -> p) the "
                       "relation holds for every value, and a share picked by a variable index is the sender's own share")
     n = 0
-    for name, b in mpc_bodies(facts):
+    for name, b in mpc_bodies(facts, file_filter):
         if "/mpc/" not in b.file:
             continue
         fl = None
@@ -663,7 +666,7 @@ def party_arithmetic(facts, rep):
                 continue
             n += 1
             valid = all(0 <= x <= 2 and 0 <= y <= 2 and x != y for x, y in pairs)
-            rep.ob("C02.D", "%s|send#%d|valid" % (name, k), valid,
+            rep.ob(P + ".D", "%s|send#%d|valid" % (name, k), valid,
                    "(sender, receiver) for index 0,1,2 = %s" % pairs if valid else
                    "for some index value the Send parties %s are not two distinct members of {0,1,2}" % pairs, b.loc(bb))
             root = b.root or name
@@ -673,7 +676,7 @@ def party_arithmetic(facts, rep):
                     ok = all(y == (x - 1) % 3 for x, y in pairs) and sorted(x for x, _ in pairs) == [0, 1, 2]
                 else:
                     ok = all(x == (y - 1) % 3 for x, y in pairs) and sorted(y for _, y in pairs) == [0, 1, 2]
-                rep.ob("C02.D", "%s|send#%d|direction" % (name, k), ok,
+                rep.ob(P + ".D", "%s|send#%d|direction" % (name, k), ok,
                        "%s: %s" % (d[1], pairs) if ok else
                        "expected %s, but the Send parties are %s: the value goes to a party that cannot use it while the one that "
                        "needs it never receives it (a global evaluator cannot see this)" % (d[1], pairs), b.loc(bb))
@@ -693,14 +696,14 @@ def party_arithmetic(facts, rep):
                             ia = IE.build(fl, b, ti["args"][1])
                             if IE.variables(ia) == {v} and not IE.unknown(ia):
                                 same = all(IE.evaluate(ia, {v: i}) == pairs[i][0] for i in range(3))
-                                rep.ob("C02.D", "%s|send#%d|own-share@%d" % (name, k, _ord_index(b, ib)), same,
+                                rep.ob(P + ".D", "%s|send#%d|own-share@%d" % (name, k, _ord_index(b, ib)), same,
                                        "the share picked by index is the sender's own share for every index value" if same else
                                        "the sender sends share %s while being party %s: it forwards a share it is not the designated "
                                        "sender of" % ([IE.evaluate(ia, {v: i}) for i in range(3)], [p_[0] for p_ in pairs]), b.loc(ib))
             k += 1
     # the zero sharing itself: alpha_i = PRF(k_i) - PRF(k_{i+1}); party i holds exactly keys i and i+1
     zb = facts.body("mpc::mpc_compiler::recursively_generate_node_shares")
-    if rep.anchor("C02.D", "recursively_generate_node_shares", zb):
+    if file_filter is None and rep.anchor(P + ".D", "recursively_generate_node_shares", zb):
         zfl = Flow(facts, zb, EXTRA)
         found = 0
         for bb, t in zb.calls():
@@ -724,13 +727,13 @@ def party_arithmetic(facts, rep):
             pairs = [(IE.evaluate(idxs[0], {v: i}), IE.evaluate(idxs[1], {v: i})) for i in range(3)]
             found += 1
             ok = all(x == i and y == (i + 1) % 3 for i, (x, y) in enumerate(pairs))
-            rep.ob("C02.D", "recursively_generate_node_shares|alpha", ok,
+            rep.ob(P + ".D", "recursively_generate_node_shares|alpha", ok,
                    "alpha_i = PRF(k_i) - PRF(k_(i+1)): key indices %s" % pairs if ok else
                    "share i of the zero sharing uses keys %s; party i holds keys i and i+1 only, so it cannot compute its own share" % pairs,
                    zb.loc(bb))
-        rep.ob("C02.D", "recursively_generate_node_shares|alpha-found", found >= 1, "difference of two indexed PRF outputs found (%d)" % found)
+        rep.ob(P + ".D", "recursively_generate_node_shares|alpha-found", found >= 1, "difference of two indexed PRF outputs found (%d)" % found)
     rep.analysed["send_sites_with_evaluated_party_arithmetic"] = n
-    rep.floor("C02.D", "Send sites whose parties are a function of one index variable", n, 5)
+    rep.floor(P + ".D", "Send sites whose parties are a function of one index variable", n, 5 if file_filter is None else 1)
 
 
 def _ord_index(b, bb):
@@ -806,14 +809,14 @@ def _range_loop_vars(b):
     return out
 
 
-def component_locality(facts, rep):
+def component_locality(facts, rep, P="C02", file_filter=None):
     from .. import intexpr as IE
-    rep.rule("C02.H", "component-wise locality: in a loop over the party index i, a locally computed component i of a replicated "
+    rep.rule(P + ".H", "component-wise locality: in a loop over the party index i, a locally computed component i of a replicated "
                       "sharing may only use share i of its inputs (both holders, parties i and i-1, must be able to compute it); "
                       "in the product protocol (3-out-of-3 result) shares i and i+1.  Checked for every share index that is a "
                       "function of the loop variable (tuple_get(x, e(i)) and reads of share vectors), evaluated for i = 0,1,2")
     n = 0
-    for name, b in mpc_bodies(facts):
+    for name, b in mpc_bodies(facts, file_filter):
         if "/mpc/" not in b.file:
             continue
         lv = _range_loop_vars(b)
@@ -868,11 +871,11 @@ def component_locality(facts, rep):
             n += 1
             allowed = [{i, (i + 1) % 3} if three else {i} for i in range(3)]
             ok = all(vals[i] in allowed[i] for i in range(3))
-            rep.ob("C02.H", "%s|%s#%d" % (name, what.split()[0], k), ok,
+            rep.ob(P + ".H", "%s|%s#%d" % (name, what.split()[0], k), ok,
                    "%s index for i=0,1,2 is %s" % (what, vals) if ok else
                    "%s uses share %s for i=0,1,2, but component i may only use share%s: a holder of the result component does "
                    "not hold the share it is computed from (the sum over all components is unchanged, so a global evaluator "
                    "sees nothing)" % (what, vals, "s i and i+1" if three else " i"), b.loc(bb))
             k += 1
     rep.tables["three_of_three_builders"] = THREE_OF_THREE_BUILDERS
-    rep.floor("C02.H", "share indices that are functions of the party loop variable", n, 30)
+    rep.floor(P + ".H", "share indices that are functions of the party loop variable", n, 30 if file_filter is None else 3)
